@@ -48,7 +48,11 @@ package agreement
 // Environment (besides NetDrive's): VERIF_C05_SCHEDULES, VERIF_C05_FROM, VERIF_C05_MODE (force vt|ls|nd), VERIF_C05_NOSCEN=1 (skip the two directed scenarios 9000/9001), VERIF_C05_PREFIX (force the
 // prefix length), VERIF_C05_BYZ (force 0|1 after the synchrony point), VERIF_C05_SYNCSTEPS (budget of the synchronous phase).
 //
-// TestVerifC05Player (bottom of the file) ties the single-node timeout transitions on one real player + router.
+// Directed prefixes (ids 9000+, run before the generated schedules): c05ScenPipelined (pipelined thresholds for enterRound) and
+// the family c05ScenSplit (ids 9100+: two next quorums of one period — ⊥ at step sb, a value at step sv ≥ sb+2 — seen by different
+// minorities; progress after the synchrony point needs the re-broadcast older-step bundle to be accepted).
+//
+// TestVerifC05Player (bottom of the file) ties the single-node timeout transitions on one real player + router, and bundleFresh on a grid.
 
 import (
 	"fmt"
@@ -661,6 +665,177 @@ func c05ScenPipelined(variant int) func(c *c05Run, s *ndScen) {
 	}
 }
 
+// c05SplitCfg: one member of the directed family `two next quorums of one period, seen by different minorities`.
+type c05SplitCfg struct {
+	n       int
+	honest  []bool
+	A, B, C []int // A sees the ⊥ next quorum of step sb, C the value next quorum of step sv, B follows A's re-broadcast bundle
+	sb, sv  step
+}
+
+// c05SplitFamily: node counts 4..7 (a silent-after-GST Byzantine node where the arithmetic needs one: it only contributes one
+// honest-looking value vote to the late quorum), ⊥ quorum at step sb ∈ 4..7, value quorum gap ∈ {2,3} steps later.
+// Sizes: |A ∪ B| < T and |C| < T (neither side can conclude period p+1 alone), honest − |A| + F ≥ T (the value quorum forms).
+func c05SplitFamily() []c05SplitCfg {
+	base := []c05SplitCfg{
+		{n: 4, honest: []bool{true, true, true, true}, A: []int{0}, B: []int{1}, C: []int{2, 3}},
+		{n: 5, honest: []bool{true, true, true, true, false}, A: []int{0}, B: []int{1}, C: []int{2, 3}},
+		{n: 6, honest: []bool{true, true, true, true, true, true}, A: []int{0}, B: []int{1, 2}, C: []int{3, 4, 5}},
+		{n: 7, honest: []bool{true, true, true, true, true, true, false}, A: []int{0, 1}, B: []int{2}, C: []int{3, 4, 5}},
+		{n: 6, honest: []bool{true, true, true, true, true, true}, A: []int{0, 1}, B: []int{2}, C: []int{3, 4, 5}},
+		{n: 4, honest: []bool{true, true, true, true}, A: []int{3}, B: []int{0}, C: []int{1, 2}},
+	}
+	var out []c05SplitCfg
+	for _, b := range base {
+		for sb := next + 1; sb <= next + 4; sb++ {
+			for gap := step(2); gap <= 3; gap++ {
+				c := b
+				c.sb, c.sv = sb, sb+gap
+				out = append(out, c)
+			}
+		}
+	}
+	return out
+}
+
+// c05ScenSplit: the directed asynchronous prefix (round r, period 0; all decisions go through the ordinary executor):
+//  1. every honest node holds every proposal and soft-votes v at its filter timeout; the soft votes are delayed;
+//  2. all time out through the next steps voting ⊥ (nothing staged); every next vote is lost except those of step sb, which reach
+//     only A: A enters period 1 on the ⊥ quorum (period 0, step sb);
+//  3. the delayed soft votes reach B ∪ C: v is staged, they next-vote v from now on; all lost except those of step sv ≥ sb+2
+//     (plus, where needed, one vote of the Byzantine node), which reach only C: C enters period 1 with starting value v
+//     (LastConcluding = sv);
+//  4. A, alone in period 1, times out until it is `partitioned()` and re-broadcasts its freshest bundle (period 0, step sb, ⊥);
+//     B receives it and follows into period 1.  The copies for C are still in flight.
+// Synchrony point.  Period 1 is split A ∪ B (cache of period 0: ⊥) against C (cache: v), neither side reaches T: progress
+// depends on C accepting the re-broadcast ⊥ bundle of the period it left at a later step.
+func c05ScenSplit(k c05SplitCfg) func(c *c05Run, s *ndScen) {
+	return func(c *c05Run, s *ndScen) {
+		r := s.r
+		rnd := r.start
+		in := func(set []int, x int) bool {
+			for _, y := range set {
+				if y == x {
+					return true
+				}
+			}
+			return false
+		}
+		var hon, nonA []int
+		for i, h := range k.honest {
+			if h {
+				hon = append(hon, i)
+				if !in(k.A, i) {
+					nonA = append(nonA, i)
+				}
+			}
+		}
+		voted := func(i int, per period, st step) bool {
+			r.mu.Lock()
+			defer r.mu.Unlock()
+			return len(r.wireVotes[fmt.Sprintf("%d/%d/%d", rnd, per, st)][i]) > 0
+		}
+		drop := func(pred func(m *ndMsg, in ndInfo) bool) {
+			r.mu.Lock()
+			cand := []*ndMsg{}
+			for _, m := range r.pending {
+				if !m.consumed {
+					cand = append(cand, m)
+				}
+			}
+			r.mu.Unlock()
+			for _, m := range cand {
+				if !m.consumed && pred(m, r.info(m)) {
+					s.do("x %s", m.key)
+				}
+			}
+		}
+		flush := func(pred func(m *ndMsg, in ndInfo) bool) {
+			for j := 0; j < 12 && s.deliver(pred) > 0; j++ {
+			}
+		}
+		fireUntilVoted := func(ids []int, per period, st step) {
+			for _, i := range ids {
+				for j := 0; j < 4 && !voted(i, per, st); j++ {
+					s.do("t %d", i)
+				}
+			}
+		}
+		isNext := func(in ndInfo, per period) bool {
+			return in.kind == 'V' && in.round == rnd && in.period == per && in.step >= next && in.step < late
+		}
+		// 1. proposals everywhere, soft votes delayed
+		flush(func(m *ndMsg, in ndInfo) bool { return in.kind == 'P' || (in.kind == 'V' && in.step == propose) })
+		for _, i := range hon {
+			s.do("t %d", i)
+		}
+		// 2. next steps up to sb: ⊥ votes, all lost except step sb → A
+		for st := next; st <= k.sb; st++ {
+			fireUntilVoted(hon, 0, st)
+			if st == k.sb {
+				flush(func(m *ndMsg, inf ndInfo) bool { return isNext(inf, 0) && inf.step == k.sb && in(k.A, m.dst) })
+			}
+			drop(func(m *ndMsg, inf ndInfo) bool { return isNext(inf, 0) })
+			drop(func(m *ndMsg, inf ndInfo) bool { return inf.kind == 'B' || inf.kind == 'P' })
+		}
+		// 3. the delayed soft votes reach B ∪ C; value next votes, all lost except step sv → C
+		drop(func(m *ndMsg, inf ndInfo) bool { return inf.kind == 'V' && inf.step == soft && inf.period == 0 && in(k.A, m.dst) })
+		flush(func(m *ndMsg, inf ndInfo) bool { return inf.kind == 'V' && inf.step == soft && inf.period == 0 })
+		vtok := ""
+		r.mu.Lock()
+		for _, vs := range r.wireVotes[fmt.Sprintf("%d/0/%d", rnd, soft)] {
+			if len(vs) > 0 {
+				vtok = ndTok(vs[0].R.Proposal)
+			}
+		}
+		r.mu.Unlock()
+		for st := k.sb + 1; st <= k.sv; st++ {
+			fireUntilVoted(nonA, 0, st)
+			if st == k.sv {
+				for b, h := range k.honest {
+					if !h {
+						s.do("bv %d %d 0 %d %s %s", b, rnd, k.sv, vtok, s.mask(k.C...))
+					}
+				}
+				flush(func(m *ndMsg, inf ndInfo) bool { return isNext(inf, 0) && inf.step == k.sv && in(k.C, m.dst) })
+			}
+			drop(func(m *ndMsg, inf ndInfo) bool { return isNext(inf, 0) })
+			drop(func(m *ndMsg, inf ndInfo) bool { return (inf.kind == 'B' || inf.kind == 'P') && !in(k.A, m.src) && inf.period == 0 })
+		}
+		// 4. A times out alone until it re-broadcasts the ⊥ bundle; B follows it
+		bundleOut := func() bool {
+			r.mu.Lock()
+			defer r.mu.Unlock()
+			for _, m := range r.pending {
+				if !m.consumed && in(k.A, m.src) {
+					if inf := r.info(m); inf.kind == 'B' && inf.period == 0 && inf.step == k.sb {
+						return true
+					}
+				}
+			}
+			return false
+		}
+		for j := 0; j < 16 && !bundleOut(); j++ {
+			for _, a := range k.A {
+				s.do("t %d", a)
+			}
+		}
+		flush(func(m *ndMsg, inf ndInfo) bool {
+			return inf.kind == 'B' && inf.period == 0 && inf.step == k.sb && in(k.A, m.src) && in(k.B, m.dst)
+		})
+		st := func(ids []int) string {
+			r.mu.Lock()
+			defer r.mu.Unlock()
+			x := []string{}
+			for _, i := range ids {
+				x = append(x, fmt.Sprintf("n%d:p%d/s%d", i, r.nodes[i].period, r.nodes[i].step))
+			}
+			return strings.Join(x, ",")
+		}
+		r.note("SCENARIO split n=%d sb=%d sv=%d value=%s A=[%s] B=[%s] C=[%s]", k.n, k.sb, k.sv, vtok, st(k.A), st(k.B), st(k.C))
+	}
+}
+
 // c05AfterHandle: NetDrive's hook plus the monitor ACTED-ON-FRESHEST on the state the real code leaves after every handle: the
 // freshest threshold event known to the vote tracker of the player's round has been acted on —
 //
@@ -752,6 +927,26 @@ func TestVerifC05(t *testing.T) {
 				cfg := ndConfig{id: 9000 + v, seed: vh.Seed()*17 + uint64(v), n: 4, w: []uint64{1, 1, 1, 1}, honest: []bool{true, true, true, true}, T: 3,
 					rounds: 1 << 20, maxSteps: 4000, profile: fmt.Sprintf("scenario-pipelined%d", v)}
 				c := &c05Run{rng: vh.NewRng(cfg.seed + 5), sendAt: map[string]time.Duration{}, mode: []string{"ls", "vt"}[v], script: c05ScenPipelined(v)}
+				cfgs = append(cfgs, cfg)
+				runs = append(runs, c)
+				decs = append(decs, nil)
+			}
+			// the split-quorum family: everything in the thorough tier, a seed-dependent selection (one per base shape) in the quick tier
+			fam := c05SplitFamily()
+			for idx, k := range fam {
+				if !vh.Thorough() && idx%8 != int((vh.Seed()+uint64(idx/8)*3)%8) {
+					continue
+				}
+				cfg := ndConfig{id: 9100 + idx, seed: vh.Seed()*31 + uint64(idx), n: k.n, w: make([]uint64, k.n), honest: k.honest,
+					rounds: 1 << 20, maxSteps: 3000, profile: fmt.Sprintf("scenario-split-n%d-sb%d-sv%d", k.n, k.sb, k.sv)}
+				for i := range cfg.w {
+					cfg.w[i] = 1
+				}
+				W, F := cfg.W()
+				cfg.T = (W+F)/2 + 1
+				mode := []string{"vt", "ls"}[(idx+int(vh.Seed()))%2]
+				c := &c05Run{rng: vh.NewRng(cfg.seed + 5), sendAt: map[string]time.Duration{}, mode: mode, script: c05ScenSplit(k)}
+				c.delta = []time.Duration{0, 50 * time.Millisecond}[idx%2]
 				cfgs = append(cfgs, cfg)
 				runs = append(runs, c)
 				decs = append(decs, nil)
@@ -962,6 +1157,26 @@ func TestVerifC05Player(t *testing.T) {
 						}
 					}
 					cases++
+				}
+			}
+		}
+	}
+	// ---- bundleFresh (agreement/voteAggregator.go) on a grid: the model accepts a bundle of the node's round iff it is a cert
+	// bundle or its period is ≥ player period - 1 — whatever its step, the node's step and the step at which the node left the
+	// previous period (LastConcluding).  The synchronous phase needs exactly that: a node that entered p on a late quorum
+	// must still accept the re-broadcast bundle of an earlier quorum of p-1.
+	bsteps := []step{soft, cert, next, next + 1, next + 2, next + 3, next + 4, next + 5, next + 7, next + 9, late, redo, down}
+	for pp := period(0); pp <= 4; pp++ {
+		for _, lc := range append([]step{0}, bsteps...) {
+			for _, ps := range []step{soft, next + 3} {
+				for br := round(4); br <= 6; br++ {
+					for bp := period(0); bp <= 5; bp++ {
+						for _, bs := range bsteps {
+							err := bundleFresh(freshnessData{PlayerRound: 5, PlayerPeriod: pp, PlayerStep: ps, PlayerLastConcluding: lc},
+								unauthenticatedBundle{Round: br, Period: bp, Step: bs})
+							out.Emit(fmt.Sprintf("bfresh 5 %d %d %d %d %d %d", pp, lc, ps, br, bp, bs), "bfresh "+fmt.Sprint(b2i(err == nil)))
+						}
+					}
 				}
 			}
 		}
